@@ -10,20 +10,25 @@ MANIFEST = dict(
     text="Proved in Coq for every finite filtered complex and every prime p: (i) the reference diagram is well defined - any two reduced "
          "matrices obtained from the boundary matrix by left-to-right column operations have the same pivots (lows_unique) and the executable "
          "reduction is certified by a verified checker on every input it is used on; (ii) the algorithm model of Persistent_cohomology.h "
-         "(uncompressed annotation matrix, union-find elder rule with ties, signed boundary annotation, highest-key pivot, column update, "
-         "Field_Zp arithmetic as verified under C10) pairs every simplex at most once, birth before death, dim(death)=dim(birth)+1, keeps "
-         "every live annotation coordinate a cocycle of the current complex and every annotation supported on live classes of its own "
-         "dimension; (iii) betti_numbers / persistent_betti_numbers / intervals_in_dimension are the stated functions of the pair list. "
+         "(uncompressed annotation matrix, elder rule with ties for H0, signed boundary annotation, highest-key pivot, column update, "
+         "Field_Zp arithmetic as verified under C10, both orders of endpoints()) pairs every simplex at most once, birth before death, "
+         "dim(death)=dim(birth)+1, keeps every coordinate of the annotation matrix a cocycle of the current complex and every annotation "
+         "supported on live classes of its own dimension with the killed pivot gone from every column; (iii) betti_numbers / "
+         "persistent_betti_numbers / intervals_in_dimension are the stated functions of the multiset of pairs. "
          "NOT proved: that the pairs of the algorithm equal the oracle's (duality of de Silva-Morozov-Vejdemo-Johansson) and its multi-field "
          "version (C02_pcoh_full, C02_multifield_full are Definitions): this clause is checked on every generated input, for the extracted "
-         "model and for the C++, against the proved oracle: random complexes on <= 9 vertices with heavy ties, torsion complexes (RP2, its "
-         "suspension, Klein bottle, discs glued along a^k) where the fields disagree, primes 2..46337, multi-field ranges, all "
-         "min_interval_length / persistence_dim_max combinations, three Simplex_tree option sets, and the exhaustive family of filtered "
-         "complexes on <= 4 vertices with <= 3 values (sampled in the quick tier).  The C++ pair list is also compared pair by pair with the model.",
+         "model and for the C++, against the proved oracle fed with the implementation's own filtration order: random complexes on <= 9 "
+         "vertices with heavy ties, torsion complexes (RP2, its suspension, Klein bottle, discs glued along a^k) where the fields disagree, "
+         "primes 2..46337, multi-field ranges [2,3] [2,5] [3,7] [2,13] [5,5], all min_interval_length / persistence_dim_max combinations, "
+         "Simplex_tree under three option sets, Hasse_complex, Bitmap_cubical_complex with and without periodic boundary conditions, and "
+         "the exhaustive family of filtered complexes on <= 4 vertices with <= 3 values (all orbits in the thorough tier, a sample in the "
+         "quick tier).  The C++ pair list is also compared pair by pair (birth key, death key, characteristic) with the model, and every "
+         "read-out and the printed diagram with its definition on the pair list.",
     note="Trusted: Coq kernel, extraction + OCaml driver, hand-written models (tied to the C++ only by the differential run), g++, "
          "the classical theorem that the pivot pairing is the interval decomposition, and - for the decisive clause - the sampled inputs. "
          "Union-find bookkeeping (boost::disjoint_sets + zero_cocycles_) is abstracted to 'vertex -> creator of its component'; column "
-         "compression (sharing of equal columns) is not modelled.  Hasse_complex / cubical inputs are not driven (Simplex_tree only).",
+         "compression (sharing of equal columns) is not modelled; the invariants are proved for Field_Zp, the Multi_field loop is modelled "
+         "and compared only.  One crash of the engine under Multi_field was found and repaired (null coefficients stored by plus_equal_column).",
     ref="design/C02.md")
 CORRESPONDENCE = ("coq/C02_Model.v (extracted: ocaml/c02_oracle.ml) vs harness/c02_drv.cpp: pair list compared pair by pair with the algorithm "
                   "model, diagram compared with the proved boundary-matrix oracle, every read-out compared with its definition on the pair list")
@@ -35,6 +40,8 @@ TRUSTED = [
     "coefficient arithmetic models of C10 (coq/C10_Model.v: fz_*, mf_*, zp_inverse_entry), verified under property C10",
     "mathematics not formalised: pivot pairing of the reduced boundary matrix = interval decomposition (ELZ / Zomorodian-Carlsson); "
     "persistent cohomology pairs = persistent homology pairs (de Silva, Morozov, Vejdemo-Johansson) - the latter is measured per input",
+    "for cubical complexes the boundary matrix is built from the implementation's own boundary_simplex_range with alternating signs "
+    "(the engine's convention); the oracle checks that it squares to zero over Z, not that it is the geometric boundary (property C13)",
     "harness/c02_drv.cpp, g++ 12.2, Boost (intrusive containers, disjoint_sets), GMP",
 ]
 ASSUMPTIONS = [
@@ -42,7 +49,8 @@ ASSUMPTIONS = [
     "filtration values are small integers, exactly representable as double and float and printed exactly",
     "characteristics are primes <= 46337 (rejection of other values is property C10); multi-field ranges contain at least one prime",
     "Simplex_tree::dimension() is exact (trees are built by insertions only)",
-    "the reference order is the implementation's own filtration_simplex_range() (its validity is property C03)",
+    "the reference order is the implementation's own filtration_simplex_range() (its validity is properties C03 / C13)",
+    "periodic cubical complexes have at least 3 top-dimensional cells in every periodic direction",
 ]
 
 PRIMES_FIXED = [2, 3, 5, 7, 11]
@@ -170,7 +178,7 @@ def suspension(tris, x, y):
 
 
 def gen_torsion_complex(rng, contiguous, which=None):
-    which = which or rng.choice(["rp2", "rp2", "klein", "disc2", "disc3", "disc3", "disc4", "disc5", "susp-rp2", "rp2+disc3", "disc6"])
+    which = which or rng.choice(["rp2", "rp2", "klein", "disc2", "disc3", "disc3", "disc4", "disc5", "susp-rp2", "rp2+disc3"])
     if which == "rp2":
         tops = list(RP2)
     elif which == "klein":
@@ -209,6 +217,39 @@ def gen_torsion_complex(rng, contiguous, which=None):
     return assign_values(rng, S, style), which
 
 
+def gen_cubical(rng, periodic):
+    d = rng.choice([1, 2, 2, 2, 3, 3])
+    if periodic:
+        per = [rng.random() < 0.7 for _ in range(d)]
+        if not any(per):
+            per[rng.randrange(d)] = True
+        shape = [rng.choice([3, 3, 4]) if b else rng.choice([1, 2, 3]) for b in per]
+        while True:                 # keep the number of cells around 100 at most
+            n = 1
+            for x, b in zip(shape, per):
+                n *= 2 * x if b else 2 * x + 1
+            if n <= 110:
+                break
+            k = max(range(d), key=lambda i: (shape[i] if not per[i] else 0, shape[i]))
+            if per[k] and shape[k] == 3:
+                d -= 1
+                shape.pop(k)
+                per.pop(k)
+            else:
+                shape[k] -= 1
+    else:
+        shape = {1: lambda: [rng.randint(1, 7)], 2: lambda: [rng.randint(1, 4), rng.randint(1, 4)],
+                 3: lambda: rng.choice([[1, 1, 1], [2, 1, 1], [2, 2, 1], [1, 2, 2], [3, 2, 1], [2, 2, 2], [3, 1, 1]])}[d]()
+        per = [False] * d
+    n = 1
+    for x in shape:
+        n *= x
+    style = rng.choice(["few", "few", "many", "const"])
+    hi = {"few": 2, "many": 9, "const": 0}[style]
+    values = [rng.randint(0, hi) for _ in range(n)]
+    return dict(opt="Q" if periodic else "C", shape=shape, periodic=per, values=values)
+
+
 def exhaustive_filtered(nv, nvals):
     """all monotone maps from the non-empty subsets of {0..nv-1} to {0..nvals-1, absent}"""
     subs = [s for k in range(1, nv + 1) for s in itertools.combinations(range(nv), k)]
@@ -232,8 +273,27 @@ def exhaustive_filtered(nv, nvals):
     return out
 
 
-def gen_configs(rng, simplices, tier, origin):
-    vals = sorted({v for _, v in simplices})
+def orbit_representatives(nv, nvals, filtered):
+    """one representative per orbit of the vertex permutations among the filtered complexes of exhaustive_filtered"""
+    subs = [s for k in range(1, nv + 1) for s in itertools.combinations(range(nv), k)]
+    idx = {s: i for i, s in enumerate(subs)}
+    perms = []
+    for pm in itertools.permutations(range(nv)):
+        perms.append([idx[tuple(sorted(pm[v] for v in s))] for s in subs])
+    seen = set()
+    reps = []
+    for c in filtered:
+        vec = [nvals] * len(subs)
+        for sx, v in c:
+            vec[idx[tuple(sx)]] = v
+        key = min(tuple(vec[j] for j in pm) for pm in perms)
+        if key not in seen:
+            seen.add(key)
+            reps.append(c)
+    return reps
+
+
+def gen_configs(rng, vals, tier, origin):
     diffs = sorted({b - a for a in vals for b in vals if b > a})
     def pick_m():
         r = rng.random()
@@ -269,7 +329,9 @@ def load_corpus():
         for f in sorted(os.listdir(cdir)):
             if f.endswith(".json"):
                 c = json.load(open(os.path.join(cdir, f)))
-                cases.append(dict(opt=c["opt"], simplices=c["simplices"], configs=c["configs"], origin="corpus"))
+                d = {k: c[k] for k in ("opt", "simplices", "shape", "periodic", "values", "configs") if k in c}
+                d["origin"] = "corpus"
+                cases.append(d)
     return cases
 
 
@@ -285,28 +347,41 @@ def generate(rng, tier):
             cases.append(dict(opt="D", simplices=c, origin="exhaustive"))
     ex4 = _EXH.get(4) or exhaustive_filtered(4, 3)
     _EXH[4] = ex4
-    pick = ex4 if thorough else rng.sample(ex4, 700)
+    if thorough:
+        reps = _EXH.get("reps4") or orbit_representatives(4, 3, ex4)
+        _EXH["reps4"] = reps
+        pick = reps + rng.sample(ex4, 12000)
+    else:
+        pick = rng.sample(ex4, 500)
     for i, c in enumerate(pick):
-        cases.append(dict(opt="DFP"[i % 3], simplices=c, origin="exhaustive"))
+        cases.append(dict(opt="DFPH"[i % 4], simplices=c, origin="exhaustive"))
     # torsion stream
-    ntor = 300 if thorough else 36
-    first = ["rp2", "klein", "disc2", "disc3", "disc4", "disc5", "susp-rp2", "rp2+disc3", "disc6", "disc7"]
+    ntor = 120 if thorough else 30
+    first = ["rp2", "klein", "disc2", "disc3", "disc4", "disc5", "susp-rp2", "rp2+disc3"] + (["disc6", "disc7"] if thorough else [])
     for i in range(ntor):
-        opt = "DFP"[i % 3]
+        opt = "DHFP"[i % 4]
         c, which = gen_torsion_complex(rng, opt == "P", first[i] if i < len(first) else None)
         cases.append(dict(opt=opt, simplices=c, origin="torsion:" + which))
     # random complexes
-    nrand = 12000 if thorough else 900
+    nrand = 5000 if thorough else 600
     for i in range(nrand):
-        opt = "DFP"[i % 3]
+        opt = "DFPH"[i % 4]
         cases.append(dict(opt=opt, simplices=gen_random_complex(rng, opt == "P"), origin="random"))
+    # cubical complexes (plain and with periodic boundary conditions)
+    ncub = 1500 if thorough else 150
+    for i in range(ncub):
+        c = gen_cubical(rng, i % 3 == 2)
+        c["origin"] = "cubical" if c["opt"] == "C" else "cubical-periodic"
+        cases.append(c)
     for c in cases:
-        normalize(c)
+        if not is_cubical(c):
+            normalize(c)
         if "configs" not in c:
-            c["configs"] = gen_configs(rng, c["simplices"], tier, c["origin"].split(":")[0])
+            c["configs"] = gen_configs(rng, case_values(c), tier, c["origin"].split(":")[0])
     # the largest characteristic the engine accepts (its O(p^2) table costs seconds): a few runs only
     big = [c for c in cases if c["origin"].startswith("torsion")][: (6 if thorough else 2)] + \
-          [c for c in cases if c["origin"] == "random" and len(c["simplices"]) > 12][: (6 if thorough else 1)]
+          [c for c in cases if c["origin"] == "random" and len(c["simplices"]) > 12][: (6 if thorough else 1)] + \
+          [c for c in cases if c["origin"].startswith("cubical")][: (2 if thorough else 1)]
     for c in big:
         c["configs"] = c["configs"] + ["Z %d %d 0" % (BIGP, rng.randint(0, 1))]
     return cases
@@ -323,8 +398,36 @@ def normalize(c):
     return c
 
 
+def is_cubical(c):
+    return c["opt"] in ("C", "Q")
+
+
 def kline(c):
+    if is_cubical(c):
+        w = ["K", c["opt"], str(len(c["shape"]))] + [str(x) for x in c["shape"]]
+        if c["opt"] == "Q":
+            w += [str(int(b)) for b in c["periodic"]]
+        return " ".join(w + [str(v) for v in c["values"]])
     return "K %s %s" % (c["opt"], " ".join("%s:%d" % (",".join(map(str, s)), v) for s, v in c["simplices"]))
+
+
+def case_size(c):
+    if is_cubical(c):
+        n = 1
+        for k, x in enumerate(c["shape"]):
+            n *= (2 * x) if (c["opt"] == "Q" and c["periodic"][k]) else (2 * x + 1)
+        return n
+    return len(c["simplices"])
+
+
+def case_values(c):
+    return sorted(set(c["values"])) if is_cubical(c) else sorted({v for _, v in c["simplices"]})
+
+
+def case_data(c):
+    """what a replay file stores"""
+    d = {k: c[k] for k in ("opt", "simplices", "shape", "periodic", "values", "configs") if k in c}
+    return d
 
 
 def fields(line):
@@ -340,12 +443,15 @@ def run_both(drv, orc, cases, nchunks=4):
     groups = [(kline(c), list(c["configs"])) for c in cases]
     obs = core.run_grouped_parallel(drv, groups, nchunks=nchunks, timeout=3600)
     ogroups = []
-    for (h, ops), (ha, answers) in zip(groups, obs):
-        order = fields(ha or "").get("order", "-")
+    for c, (h, ops), (ha, answers) in zip(cases, groups, obs):
+        H = fields(ha or "")
         ol = []
         for op, a in zip(ops, answers):
             ol.append("%s # %s" % (op, fields(a).get("pairs", "-")))
-        ogroups.append(("K " + order, ol))
+        if is_cubical(c):
+            ogroups.append(("KC " + H.get("cells", "-"), ol))
+        else:
+            ogroups.append((("KH " if c["opt"] == "H" else "K ") + H.get("order", "-"), ol))
     exp = core.run_grouped_parallel(orc, ogroups, nchunks=nchunks, timeout=3600)
     return [(o, e) for o, e in zip(obs, exp)]
 
@@ -415,9 +521,10 @@ def check_case(c, obs, exp):
         return [(-1, "crash:build", "building the complex failed: %s" % (ha or "")[:80], "ok", (ha or "")[:80])]
     H = fields(ha)
     if not (hb or "").startswith("ok"):
-        return [(-1, "order:not-a-complex", "filtration_simplex_range is not a complex with faces before cofaces: %s" % hb, "ok", hb)]
+        return [(-1, "order:not-a-complex", "filtration_simplex_range / boundary_simplex_range do not describe a chain complex with facets before "
+                 "cofaces (%s)" % hb, "ok", hb)]
     Hb = fields(hb)
-    if H.get("n") != Hb.get("n") or H.get("n") != str(len(c["simplices"])) or H.get("dim") != Hb.get("dim"):
+    if H.get("n") != Hb.get("n") or H.get("n") != str(case_size(c)) or H.get("dim") != Hb.get("dim"):
         return [(-1, "order:size", "num_simplices()/dimension() differ from the inserted complex", "n=%s dim=%s" % (Hb.get("n"), Hb.get("dim")),
                  "n=%s dim=%s" % (H.get("n"), H.get("dim")))]
     for i, (cfg, a, b) in enumerate(zip(c["configs"], answers, oanswers)):
@@ -433,6 +540,8 @@ def maximal_simplices(simplices):
 
 
 def shrink(drv, orc, c, kind, cfg, budget=50):
+    if is_cubical(c):
+        return dict(c, configs=[cfg])
     cur = dict(opt=c["opt"], simplices=list(c["simplices"]), configs=[cfg], origin=c["origin"])
     changed = True
     while changed and budget > 0:
@@ -461,20 +570,21 @@ def check(ctx, replay=None):
     orc = ctx.build_oracle("c02")
     if replay:
         rc = replay["case"]
-        cases = [dict(opt=rc["opt"], simplices=rc["simplices"], configs=rc["configs"], origin="replay")]
+        cases = [dict({k: rc[k] for k in ("opt", "simplices", "shape", "periodic", "values", "configs") if k in rc}, origin="replay")]
     else:
         cases = generate(ctx.rng, ctx.tier)
     ctx.log("%d complexes, %d runs" % (len(cases), sum(len(c["configs"]) for c in cases)))
     out = run_both(drv, orc, cases)
     seen = {}
     for c, (o, e) in zip(cases, out):
-        n = len(c["simplices"])
+        n = case_size(c)
         res.count("origin:" + c["origin"])
-        res.count("option-set:" + {"D": "default", "F": "full_featured", "P": "fast_persistence"}.get(c["opt"], c["opt"]))
-        res.count("simplices:" + ("<=7" if n <= 7 else "8-15" if n <= 15 else "16-40" if n <= 40 else "41-90" if n <= 90 else ">90"))
-        res.count("dimension:%d" % (max(len(s) for s, _ in c["simplices"]) - 1))
-        vals = [v for _, v in c["simplices"]]
-        res.count("ties:" + ("all values equal" if len(set(vals)) == 1 and n > 1 else "some" if len(set(vals)) < n else "none"))
+        res.count("complex:" + {"D": "Simplex_tree default", "F": "Simplex_tree full_featured", "P": "Simplex_tree fast_persistence",
+                                "H": "Hasse_complex", "C": "Bitmap_cubical_complex", "Q": "Bitmap_cubical_complex periodic"}.get(c["opt"], c["opt"]))
+        res.count("cells:" + ("<=7" if n <= 7 else "8-15" if n <= 15 else "16-40" if n <= 40 else "41-90" if n <= 90 else ">90"))
+        res.count("dimension:%d" % (len(c["shape"]) if is_cubical(c) else max(len(s) for s, _ in c["simplices"]) - 1))
+        nvals = len(case_values(c))
+        res.count("ties:" + ("all values equal" if nvals == 1 and n > 1 else "some" if nvals < n else "none"))
         vs = check_case(c, o, e)
         bad = {v[0] for v in vs}
         for i, cfg in enumerate(c["configs"]):
@@ -494,17 +604,17 @@ def check(ctx, replay=None):
         for v in vs:
             seen.setdefault(v[1], []).append((c, v))
     for kind, lst in seen.items():
-        lst.sort(key=lambda t: len(t[0]["simplices"]))
+        lst.sort(key=lambda t: case_size(t[0]))
         c, v = lst[0]
         i, _, what, expd, obsd = v
         cfg = c["configs"][i] if i >= 0 else c["configs"][0]
-        small = dict(opt=c["opt"], simplices=c["simplices"], configs=[cfg])
+        small = case_data(dict(c, configs=[cfg]))
         if not replay and i >= 0:
             s = shrink(drv, orc, c, kind, cfg)
             (o, e), = run_both(drv, orc, [s], nchunks=1)
             vv = [x for x in check_case(s, o, e) if x[1] == kind]
             if vv:
-                small = dict(opt=s["opt"], simplices=s["simplices"], configs=s["configs"])
+                small = case_data(s)
                 what, expd, obsd = vv[0][2], vv[0][3], vv[0][4]
         for _ in lst:
             if kind.startswith("model:"):
@@ -517,9 +627,11 @@ def check(ctx, replay=None):
                 "the read-out definitions; distinct = distinct (insertion list, option set, configuration); every case has at least one simplex")
     res.exhaustive = False
     rs = [c for c in cases if c["origin"] == "random"] or cases
-    res.samples = [{"opt": c["opt"], "simplices": c["simplices"][:14], "configs": c["configs"]} for c in rs[:5]]
+    res.samples = [{"opt": c["opt"], "simplices": c["simplices"][:14], "configs": c["configs"]} for c in rs[:4] if "simplices" in c] + \
+                  [case_data(c) for c in cases if is_cubical(c)][:2]
     res.notes.append("exhaustive sub-domain: every filtered complex on <= 3 vertices with <= 3 distinct values; on 4 vertices %s of the %d"
-                     % ("all" if ctx.tier == "thorough" else "a random sample of 700", len(_EXH.get(4, []))))
+                     % (("one representative of each of the %d orbits under vertex relabelling plus a random sample of 12000" % len(_EXH.get("reps4", [])))
+                        if ctx.tier == "thorough" else "a random sample of 500", len(_EXH.get(4, []))))
     res.notes.append("the equality 'pairs of the cohomology algorithm = pairs of the boundary-matrix reduction' (C02_pcoh_full, C02_multifield_full) is "
                      "measured on every run above for the extracted model and for the C++; it is not a Coq theorem")
     return core.finish(ctx, None, res, TRUSTED, ASSUMPTIONS, LEVEL,
